@@ -206,6 +206,11 @@ func Max[T constraints.Numeric]() func(Observable[T]) Observable[T] {
 					},
 					destination.ErrorWithContext,
 					func(ctx context.Context) {
+						if first {
+							// empty source: no value carried a context
+							mAx.A = ctx
+						}
+
 						destination.NextWithContext(mAx.A, mAx.B)
 						destination.CompleteWithContext(ctx)
 					},
